@@ -1,0 +1,7 @@
+//! Verification hooks.
+//!
+//! This module only exists with the `verif-hooks` feature. It re-exports crate-internal items and
+//! provides thin facades so that an external verification harness can drive the real
+//! implementation. It adds code only; nothing here is used by the crate itself.
+
+pub mod kbucket;
